@@ -1,10 +1,171 @@
 import BFL.Driver.Proto
-/- Driver entries of this group (stub: no operation handled yet). -/
+import BFL.Model.Lifecycle
+/-
+Driver entries of the lifecycle group (C09).
+
+  life <cfg> tok tok …        cfg = cur | old | nolock | nonotify
+     r s b t     run / reset / reboot (both stores) / teardown      (R S B T are read the same)
+     a0 a1       let the thread leave its parking place and advance to the next one; the digit is
+                 what run_condition() returns if the thread is parked inside that call
+     j           let the thread run freely (run_condition() = false from now on) and join it
+     jt          the same with run_condition() = true from now on (64 moves must suffice: meant for
+                 schedules in which teardown was requested)
+
+Parking places of the thread (= the places where the harness can hold the real thread):
+  0 1 2 3 4   the schedule points of filtering_recursion()       (pc top, preWait, preInit, afterLoop, preFinal)
+  k           entry of the condition wait, mutex held            (blocking)
+  w           blocked inside the condition wait                  (waiting)
+  i s c       inside initialization_step / filtering_step / run_condition   (inInit, inStep, inA|outA)
+  f           ended                                              (done)
+Output, one word per token:  tok:events:place:is_running:step_number[:d]
+  events = Init / Step k start / Step k end since the previous token (I, S<k>, E<k>, `.`-joined, `-` if none);
+  `d` = the command needs the mutex the thread holds (place k): it takes effect when the thread
+  has released it, i.e. during the next `a`.
+  j gives  j:events:f:run:step  or  j:hang  (the thread cannot end).
+Every transition is made by `BFL.Life.step` — the function the theorems are about.
+-/
 namespace BFL.DriverLife
-open BFL BFL.Proto
+open BFL BFL.Proto BFL.Life
+
+def isGate : PC → Bool
+  | .top | .preWait | .blocking | .waiting | .preInit | .inInit | .inA | .inStep
+  | .afterLoop | .outA | .preFinal | .done => true
+  | _ => false
+
+def place : PC → String
+  | .top => "0" | .preWait => "1" | .blocking => "k" | .waiting => "w" | .preInit => "2"
+  | .inInit => "i" | .inA => "c" | .outA => "c" | .inStep => "s" | .afterLoop => "3"
+  | .preFinal => "4" | .done => "f"
+  | _ => "?"
+
+/-- abstract control state: program counter and the three flags (+ pending notification, reboot in progress) -/
+def absState (s : St) : String :=
+  let b := fun (x : Bool) => if x then "1" else "0"
+  s!"{(reprStr s.pc).replace "BFL.Life.PC." ""}/{b s.run}{b s.reset}{b s.teardown}{b s.woken}{b s.mid}"
+
+/-- a state together with the abstract states passed through -/
+structure T where
+  s : St
+  vis : Array String
+
+def pcName (pc : PC) : String := (reprStr pc).replace "BFL.Life.PC." ""
+
+/-- records the abstract state reached and, for a thread move, the control edge taken -/
+def T.step (cfg : Cfg) (t : T) (a : Act) : T :=
+  let s' := BFL.Life.step cfg t.s a
+  let vis := t.vis.push (absState s')
+  let vis := match a with
+    | .t _ => if s'.pc != t.s.pc then vis.push s!"e:{pcName t.s.pc}>{pcName s'.pc}" else vis
+    | _ => vis
+  { s := s', vis := vis }
+
+/-- moves that need no value from the environment, until the next parking place -/
+def settle (cfg : Cfg) : Nat → T → T
+  | 0, t => t
+  | n + 1, t => if isGate t.s.pc then t else
+      match thr t.s false with
+      | some _ => settle cfg n (t.step cfg (.t false))
+      | none => t
+
+/-- a thread blocked in the wait with a notification pending wakes up by itself -/
+def wake (cfg : Cfg) (t : T) : T :=
+  if t.s.pc == .waiting && t.s.woken && !t.s.mid then settle cfg 8 (t.step cfg (.t false)) else t
+
+def advance (cfg : Cfg) (t : T) (c : Bool) : T :=
+  match thr t.s c with
+  | none => t
+  | some _ => settle cfg 8 (t.step cfg (.t c))
+
+def cmdOf : String → Option Cmd
+  | "r" | "R" => some .run
+  | "s" | "S" => some .reset
+  | "b" | "B" => some .reboot
+  | "t" | "T" => some .teardown
+  | _ => none
+
+def needsMutex (cfg : Cfg) : Cmd → Bool
+  | .run | .reboot => true
+  | .teardown => cfg.tdLock
+  | _ => false
+
+def applyCmd (cfg : Cfg) (t : T) (x : Cmd) : T :=
+  let t1 := t.step cfg (.c x)
+  let t2 := if x == .reboot then t1.step cfg .fin else t1
+  wake cfg t2
+
+def evStr : Ev → Option String
+  | .init => some "I"
+  | .stepStart k => some s!"S{k}"
+  | .stepEnd k => some s!"E{k}"
+  | _ => none
+
+/-- events pushed since the history had length `n0` (oldest first) -/
+def newEvents (s : St) (n0 : Nat) : String :=
+  let evs := ((s.hist.take (s.hist.length - n0)).reverse).filterMap evStr
+  if evs.isEmpty then "-" else ".".intercalate evs
+
+def obs (tok : String) (s : St) (n0 : Nat) : String :=
+  s!"{tok}:{newEvents s n0}:{place s.pc}:{if s.isRunning then 1 else 0}:{s.stepNumber}"
+
+def freeRun (cfg : Cfg) (c : Bool) : Nat → T → T
+  | 0, t => t
+  | n + 1, t => match thr t.s c with
+    | some _ => freeRun cfg c n (t.step cfg (.t c))
+    | none => t
+
+structure Run where
+  t : T
+  pending : List Cmd := []
+  out : Array String := #[]
+  hung : Bool := false
+
+def runTok (cfg : Cfg) (r : Run) (tok : String) : Option Run :=
+  let n0 := r.t.s.hist.length
+  match cmdOf tok with
+  | some x =>
+    if r.t.s.pc == .blocking && needsMutex cfg x then
+      some { r with pending := r.pending ++ [x], out := r.out.push (obs tok r.t.s n0 ++ ":d") }
+    else
+      let t' := applyCmd cfg r.t x
+      some { r with t := t', out := r.out.push (obs tok t'.s n0) }
+  | none =>
+    if tok == "a0" || tok == "a1" then
+      let t1 := advance cfg r.t (tok == "a1")
+      let t2 := r.pending.foldl (applyCmd cfg) t1
+      some { r with t := t2, pending := [], out := r.out.push (obs tok t2.s n0) }
+    else if tok == "j" || tok == "jt" then
+      let c := tok == "jt"
+      let t1 := r.pending.foldl (applyCmd cfg) (freeRun cfg c 64 r.t)
+      let t2 := freeRun cfg c 64 t1
+      if t2.s.pc == .done then
+        let t3 := t2.step cfg (.c .wait)
+        some { r with t := t3, pending := [], out := r.out.push (obs tok t3.s n0) }
+      else
+        some { r with t := t2, pending := [], out := r.out.push (tok ++ ":hang"), hung := true }
+    else none
+
+def cfgOf : String → Option Cfg
+  | "cur" => some Cfg.current
+  | "old" => some Cfg.old
+  | "nolock" => some ⟨false, true⟩
+  | "nonotify" => some ⟨true, false⟩
+  | _ => none
+
+def runLine (args : List String) : Option Run := do
+  match args with
+  | [] => none
+  | c :: toks =>
+    let cfg ← cfgOf c
+    let mut r : Run := { t := { s := St.boot, vis := #[absState St.boot] } }
+    for t in toks do
+      if r.hung then break
+      r ← runTok cfg r t
+    pure r
 
 def handle (op : String) (args : List String) : Option String :=
   match op with
+  | "life" => some (((runLine args).map fun r => " ".intercalate r.out.toList).getD "bad-args")
+  | "lifev" => some (((runLine args).map fun r => " ".intercalate r.t.vis.toList.eraseDups).getD "bad-args")
   | _ => none
 
 end BFL.DriverLife
